@@ -30,7 +30,7 @@ REQUIRED_COUNTERS = ('graphs', 'records_checked', 'referencesf_comparisons', 'is
 
 
 def shards(tier, seed):
-    return split(tier, seed, 2400, 24000, 40, 900)
+    return split(tier, seed, 9600, 400000, 40, 900)
 
 
 def hostile_oids(rnd):
@@ -71,6 +71,28 @@ def make_dyn_class(name):
     Dyn.__qualname__ = 'Dyn'
     mod.Dyn = Dyn
     return Dyn
+
+
+def legacy_text_oids(data, oids):
+    """the record as Python 2 wrote it: every 8-byte oid pickled as a *string* (SHORT_BINSTRING) instead of bytes
+    (SHORT_BINBYTES); on Python 3 such an oid unpickles as str when all its bytes are < 0x80"""
+    import io
+    import pickletools
+    out = bytearray(data)
+    f = io.BytesIO(data)
+    n = 0
+    for _ in range(2):
+        try:
+            for op, arg, pos in pickletools.genops(f):
+                # (only all-ASCII oids: text with bytes >= 0x80 does not unpickle under Python 3 at all - such databases
+                # need conversion first - so only the all-ASCII case is within the guarantee)
+                if op.name == 'SHORT_BINBYTES' and isinstance(arg, bytes) and len(arg) == 8 and arg in oids and max(arg) < 0x80:
+                    assert out[pos:pos + 2] == b'C\x08'          # (positions are those of f.tell())
+                    out[pos] = ord('U')
+                    n += 1
+        except Exception:
+            break
+    return bytes(out), n
 
 
 def run_case(sh, s, d, case):
@@ -299,6 +321,29 @@ def run_case(sh, s, d, case):
         if nweak != sum(1 for (ek, f, t) in nodes[k]['edges'] if ek in ('weak', 'xweak')) or nx != sum(1 for (ek, f, t) in nodes[k]['edges'] if ek == 'xdb'):
             sh.violation('c14:weak-or-cross-database-reference-count-differs', dict(wit, node=k, weak=nweak, xdb=nx), case)
             return None
+    # ---- the same records with their oids pickled as text (as written under Python 2): reference extraction must still give
+    #      the same oids, as bytes
+    from ZODB.serialize import get_refs
+    known = set(recs) | {x._p_oid for x in xobjs}
+    legacy = {}
+    for o, data in recs.items():
+        legacy[o], nrew = legacy_text_oids(data, known)
+        if not nrew:
+            continue
+        sh.count('legacy_text_oid_records_checked')
+        want = sorted(referencesf(data))
+        try:
+            got = referencesf(legacy[o])
+            got2 = [r[0] for r in get_refs(legacy[o])]
+        except Exception as e:
+            sh.violation('c14:referencesf-raises-%s-on-legacy-text-oids' % type(e).__name__, dict(wit, exc=repr(e)[:160]), case)
+            return None
+        if not all(isinstance(x, bytes) for x in got + got2):
+            sh.violation('c14:referencesf-returns-non-bytes-oid-for-legacy-text-oid', dict(wit, types=sorted({type(x).__name__ for x in got + got2})), case)
+            return None
+        if sorted(got) != want or sorted(got2) != want:
+            sh.violation('c14:referencesf-differs-on-legacy-text-oids', dict(wit, got=sorted(got), want=want), case)
+            return None
     # ---- isomorphism in a second connection (class of 'dyn' nodes deleted first on some runs)
     drop_class = rnd.random() < 0.5 and skind == 'file'      # needs a fresh DB object (no class cache)
     if drop_class:
@@ -360,31 +405,35 @@ def run_case(sh, s, d, case):
         for v in vals:
             walk(v)
         return out
-    for k in sorted(stored_k):
-        nd = nodes[k]
-        o = cb.get(oid_of[k])
-        if cb.get(oid_of[k]) is not o:
-            sh.violation('c14:two-objects-for-one-oid-in-a-connection', dict(wit, node=k), case)
-            return None
-        o._p_activate()
-        if nd['kind'] == 'dyn' and drop_class:
-            sh.count('placeholders_checked')
-            if not isinstance(o, Broken):
-                sh.violation('c14:missing-class-not-loaded-as-placeholder', dict(wit, node=k, type=type(o).__name__), case)
-                return None
-        if payload_of(o, nd['kind']) != nd['marker']:
-            sh.violation('c14:loaded-payload-differs', dict(wit, node=k), case)
-            return None
-        got = sorted(edges_of(o, nd['kind']))
-        exp = sorted((ek, oid_of[t]) if ek not in ('xdb', 'xweak') else ('weak', xobjs[t]._p_oid) if ek == 'xweak'
-                     else ('xdb', xobjs[t]._p_oid, 'two', xmarkers[t]) for (ek, f, t) in nd['edges'])
-        if got != exp:
-            sh.violation('c14:loaded-edges-differ-from-stored-graph', dict(wit, node=k, got=got, model=exp), case)
-            return None
-        # identity: following an edge leads to the connection's single object for that oid
-    g = cb.root()['g']
-    if g is not cb.get(oid_of[0]):
-        sh.violation('c14:root-edge-does-not-lead-to-the-cached-object', wit, case)
+    def iso(sfx):
+        for k in sorted(stored_k):
+            nd = nodes[k]
+            o = cb.get(oid_of[k])
+            if cb.get(oid_of[k]) is not o:
+                sh.violation('c14:two-objects-for-one-oid-in-a-connection' + sfx, dict(wit, node=k), case)
+                return False
+            o._p_activate()
+            if nd['kind'] == 'dyn' and drop_class:
+                sh.count('placeholders_checked')
+                if not isinstance(o, Broken):
+                    sh.violation('c14:missing-class-not-loaded-as-placeholder' + sfx, dict(wit, node=k, type=type(o).__name__), case)
+                    return False
+            if payload_of(o, nd['kind']) != nd['marker']:
+                sh.violation('c14:loaded-payload-differs' + sfx, dict(wit, node=k), case)
+                return False
+            got = sorted(edges_of(o, nd['kind']))
+            exp = sorted((ek, oid_of[t]) if ek not in ('xdb', 'xweak') else ('weak', xobjs[t]._p_oid) if ek == 'xweak'
+                         else ('xdb', xobjs[t]._p_oid, 'two', xmarkers[t]) for (ek, f, t) in nd['edges'])
+            if got != exp:
+                sh.violation('c14:loaded-edges-differ-from-stored-graph' + sfx, dict(wit, node=k, got=got, model=exp), case)
+                return False
+            # identity: following an edge leads to the connection's single object for that oid
+        g = cb.root()['g']
+        if g is not cb.get(oid_of[0]):
+            sh.violation('c14:root-edge-does-not-lead-to-the-cached-object' + sfx, wit, case)
+            return False
+        return True
+    if not iso(''):
         return None
     # ---- export / import: records are copied with every reference rewritten to a fresh oid
     if nonstrong == 0 and not drop_class:
@@ -444,6 +493,33 @@ def run_case(sh, s, d, case):
             return None
         ic.close()
         idb.close()
+    # ---- the whole history once more with every all-ASCII oid pickled as text (Python 2 form): same graph when loaded
+    if not xdb and any(max(o) < 0x80 for o in recs):
+        lst = FSM.FileStorage(os.path.join(d, 'legacy.fs'))
+        it = st.iterator()
+        nrew = 0
+        for t in it:
+            lst.tpc_begin(t, t.tid, t.status)
+            for r in t:
+                ld, n_ = legacy_text_oids(r.data, known) if r.data else (r.data, 0)
+                nrew += n_
+                lst.restore(r.oid, r.tid, ld, '', None, t)
+            lst.tpc_vote(t)
+            lst.tpc_finish(t)
+        if hasattr(it, 'close'):
+            it.close()
+        ldb = ZODB.DB(lst)
+        cb_main = cb
+        cb = ldb.open(transaction.TransactionManager())
+        sh.count('legacy_text_oid_graphs_loaded')
+        sh.count('legacy_text_oid_references_rewritten', nrew)
+        try:
+            if not iso(':legacy-text-oids'):
+                return None
+        finally:
+            cb.close()
+            ldb.close()
+            cb = cb_main
     tmb.abort()
     cb.close()
     db.close()
